@@ -373,10 +373,43 @@ fn main() {
     let single_proviso: Vec<i64> = single_years.iter().cloned().chain([1969, 1970, 1971]).collect();
     const SINGLE_CH: u64 = 8;
     let n_single = (2 * days_all.len() as u64 + SINGLE_CH - 1) / SINGLE_CH;
+    // third family: footers carrying every kind of rule time (extended version-3 times of both signs with minute and
+    // second parts, the plain form of version 2), read from a file
+    let footers = chrono_mc::zonegen::footer_zones();
+    const FOOT_CH: u64 = 8;
+    let n_foot = (footers.len() as u64 + FOOT_CH - 1) / FOOT_CH;
     let only = replay_unit(&args);
-    let mut acc = explore_units(n_syn + n_rule + nfiles + n_single, CLASSES.len(), only, |u, acc| {
+    let mut acc = explore_units(n_syn + n_rule + nfiles + n_single + n_foot, CLASSES.len(), only, |u, acc| {
         if u == 0 {
             mapped_local_time_algebra(acc);
+        }
+        if u >= n_syn + n_rule + nfiles + n_single {
+            let k0 = (u - n_syn - n_rule - nfiles - n_single) * FOOT_CH;
+            for k in k0..(k0 + FOOT_CH).min(footers.len() as u64) {
+                let (z, version, v1, ind) = &footers[k as usize];
+                let r = z.rule.as_ref().unwrap();
+                if !inside_year(r, &single_proviso) {
+                    acc.skip("rule transitions not more than one day inside the year (statement's proviso)");
+                    continue;
+                }
+                let bytes = write_tzif(z, *version, *v1, *ind);
+                match read_tzif(&bytes) {
+                    Ok(back) if back == *z => {}
+                    other => machinery(&format!("RefTzif writer/reader disagree on footer zone {}: {:?}", k, other)),
+                }
+                let vz = match guard(|| VerifZone::from_tzif(&bytes)) {
+                    Ok(Ok(v)) => v,
+                    other => {
+                        acc.violation("from_tzif:rejects-wellformed", format!("footer zone #{} ({}) written as TZif v{}", k, r.to_tz_string(), version), "Ok".into(), format!("{:?}", other.map(|r| r.map(|_| ()))));
+                        continue;
+                    }
+                };
+                acc.states += 1;
+                judge_zone(acc, &|| format!("TZif v{} file with footer {}", version, r.to_tz_string()), &vz, z, &single_years);
+                acc.hit(RULEZ);
+            }
+            acc.traces += 1;
+            return;
         }
         if u >= n_syn + n_rule + nfiles {
             let k0 = (u - n_syn - n_rule - nfiles) * SINGLE_CH;
